@@ -84,6 +84,25 @@ func (x *Exec) callClosure(fr *Frame, st *State, fv *Val, args []*Val, pos token
 		}
 		return out
 	}
+	// a value read back from a data structure that may hold function constants of this job
+	if fv.T != nil && len(x.fnConsts) > 0 && (fv.T.op == "select" || fv.T.op == "ite" || strings.HasPrefix(fv.T.op, "at.") || fv.T.op == "const") {
+		var alts []CloAlt
+		for _, fc := range x.fnConsts {
+			if types.Identical(fc.clo.Fn.Signature.Underlying(), sig) || fc.clo.Fn.Signature.Params().Len() == sig.Params().Len() {
+				alts = append(alts, CloAlt{Cond: Eq(fv.T, fc.term), Clo: fc.clo})
+			}
+		}
+		if len(alts) > 0 {
+			known := False
+			for _, al := range alts {
+				known = Or(known, al.Cond)
+			}
+			// the value is one of the stored constants (nothing else is ever stored in such a slot in this job)
+			x.oblige(st, "fnconst", known, pos, "called function value is one of the closures stored in this function")
+			x.ctx.assume(st, known)
+			return x.callClosure(fr, st, &Val{Typ: fv.Typ, Clo: &Closure{Alts: alts}}, args, pos)
+		}
+	}
 	// opaque function value: modelled as a pure uninterpreted function of its arguments (A-PUREFN)
 	x.trusted["A-PUREFN"] = true
 	if fv.T == nil {
